@@ -120,6 +120,7 @@ type Policy struct {
 	Cache     int    `json:"cache"`                // LRU size, 0 = shipped
 	RestartAt []int  `json:"restart_at"`           // stop+reopen after these block indexes
 	Reader    bool   `json:"reader"`               // slow disk + concurrent API reader: while the block's state commit waits at the stalled store, every state key and account the block changed is read through the read-write ledger (what the JSON-RPC / gRPC account and storage queries do)
+	Compete   int    `json:"compete,omitempty"`    // block replacement at the head: chance (per mille) per block that the replica first executes a competing block of the same height (the block without one of its transactions) and then receives the real one, which takes the executor through its rollback of the head and the re-execution (what a node sees when the ordering layer hands it a height again after a restart or a fork)
 	ApiReader int    `json:"api_reader,omitempty"` // concurrent account-API reader at the yield points of the flush/commit path: chance (per mille) per yield point that a balance query (coreapi GetAccount: Ledger.Copy().GetOrCreateAccount) runs exactly there
 }
 
@@ -309,6 +310,20 @@ func (r *replica) execute(ev *pb.CommitEvent, watchdog time.Duration) (*blockRes
 	case <-time.After(watchdog):
 		return nil, errWedged
 	}
+}
+
+// competingBlock: the block of ev without its transaction number drop.
+func competingBlock(ev *pb.CommitEvent, drop int) *pb.CommitEvent {
+	c := cloneCommit(ev)
+	txs := c.Block.Transactions.Transactions
+	if drop < 0 || drop >= len(txs) {
+		return c
+	}
+	c.Block.Transactions.Transactions = append(append([]pb.Transaction(nil), txs[:drop]...), txs[drop+1:]...)
+	if drop < len(c.LocalList) {
+		c.LocalList = append(append([]bool(nil), c.LocalList[:drop]...), c.LocalList[drop+1:]...)
+	}
+	return c
 }
 
 // executeWithReader executes one block with the state store stalled; once the block's state commit is waiting
